@@ -38,6 +38,6 @@ m = {
  'notes': 'All checks rebuild asl from /repo working tree via make (dependency tracked). KNOWN_FINDINGS.txt lists known/fixed defects. See DESIGN.md.',
 }
 json.dump(m, open('/verif/MANIFEST.json', 'w'), indent=1)
-bins = sorted({'$(B)/%s/bin/%s' % (p['flavour'], p['bin']) for c in ALL_CHECKS.values() for p in c['parts']})
+bins = sorted({'$(B)/%s/bin/%s' % (p['flavour'], p['bin']) for c in CHECKS.values() for p in c['parts']})
 open('/verif/targets.mk', 'w').write('ALL_BINS := ' + ' '.join(bins) + '\n')
 print('manifest: %d checks, %d not claimed' % (len(checks), len(na)))
